@@ -450,6 +450,9 @@ class Kernel:
 
     # pure state functions (also used by the conformance test)
     def open(self, pid, path):
+        import posixpath
+
+        path = posixpath.normpath(path)  # the kernel identifies a file, not the spelling of its path
         t = self.fds.setdefault(pid, {})
         fd = 3
         while fd in t:
